@@ -1,4 +1,27 @@
 #!/usr/bin/env python3
-"""Regenerates coq/Gen/*.v from /repo's current source (fail-closed)."""
+"""Regenerates coq/Gen/*.v from the current source of the tree under
+verification.  usage: run_all.py <repo> <outdir>.  Every translate/tr_*.py
+module exposes main(repo: Path, outdir: Path); all are fail-closed: a
+construct outside the supported fragment raises and this script exits 1,
+which the checks report as a broken tie, never as success."""
+import importlib.util
 import sys
-sys.exit(0)
+import traceback
+from pathlib import Path
+
+here = Path(__file__).resolve().parent
+repo = Path(sys.argv[1] if len(sys.argv) > 1 else "/repo")
+out = Path(sys.argv[2] if len(sys.argv) > 2 else "/verif/coq/Gen")
+out.mkdir(parents=True, exist_ok=True)
+rc = 0
+for f in sorted(here.glob("tr_*.py")):
+    spec = importlib.util.spec_from_file_location(f.stem, f)
+    mod = importlib.util.module_from_spec(spec)
+    try:
+        spec.loader.exec_module(mod)
+        mod.main(repo, out)
+    except Exception as e:  # noqa: BLE001
+        traceback.print_exc()
+        print(f"TRANSLATOR FAILED {f.name}: {e}")
+        rc = 1
+sys.exit(rc)
